@@ -162,7 +162,7 @@ def check(c, d):
             c.harness_error('could not patch the species element of %s' % sid)
             return
     open(path, 'w').write(text)
-    key = 'C13/%s/' % d['tag'].split(':')[0]
+    key = 'C13/%s%s/' % (d['tag'].split(':')[0], '-into-used-model' if d.get('route') else '')
     sub = d['tag'].split(':')[1] if ':' in d['tag'] else ''
     case = dict(doc=d)
     try:
@@ -174,7 +174,32 @@ def check(c, d):
         try:
             with warnings.catch_warnings():
                 warnings.simplefilter('ignore')
-                m = Model(sbml_filename=path, sbml_warnings=False)
+                if d.get('route') == 'into-used-model':
+                    # the document is read into a Model object that an earlier, rejected import was aimed at: a draft of the same
+                    # document whose FIRST kinetic law uses a function bioscrape does not have (so nothing but species and
+                    # parameters of the same names reached the Model before the rejection)
+                    from bioscrape.sbmlutil import import_sbml
+                    draft = L.readSBMLFromString(text)
+                    kl = draft.getModel().getReaction(0).getKineticLaw()
+                    kl.setMath(L.parseL3Formula('tanh(%s)' % L.formulaToL3String(kl.getMath())))
+                    dpath = path + '.draft.xml'
+                    L.writeSBMLToFile(draft, dpath)
+                    m = Model()
+                    try:
+                        import_sbml(dpath, bioscrape_model=m, sbml_warnings=False)
+                    except Exception:
+                        pass
+                    else:
+                        c.count('draft_accepted')
+                        return
+                    finally:
+                        try:
+                            os.remove(dpath)
+                        except OSError:
+                            pass
+                    m = import_sbml(path, bioscrape_model=m, sbml_warnings=False)
+                else:
+                    m = Model(sbml_filename=path, sbml_warnings=False)
         except Exception as e:
             c.count('rejected')
             c.tally('rejected_by_tag', d['tag'])
@@ -256,13 +281,15 @@ def check(c, d):
 
 def run(ctx):
     docs = documents(ctx.tier)
+    # every document with a reaction also through import_sbml(file, bioscrape_model=M) into a Model that a rejected import was aimed at
+    docs = docs + [dict(d_, route='into-used-model') for d_ in docs if d_.get('reactions') and not d_.get('both')]
     pmap(check, docs, ctx, nshards=128)
     ctx.bounds = dict(documents=len(docs), states=len(STATES))
     ctx.rule = ('E2: SBML Level 3 documents built directly with libsbml: (1) 15 kinetic laws over + - * / ^ (nested powers in both '
                 'associations) exp ln abs min max x reactant/product stoichiometries 1..3 x a modifier; (2) initial amount / concentration '
                 'in every combination (both present by patching the XML, skipped if libsbml rejects it); (3) every ordered selection of '
                 'reactions whose local parameters shadow a global, share a name with another reaction\'s local, or are private; (4) every '
-                'sequence of <= 3 rules (and 3-4 of a mixed menu) over assignment/rate x species/parameter. Oracle: the document\'s own '
+                'sequence of <= 3 rules (and 3-4 of a mixed menu) over assignment/rate x species/parameter. Every document with a reaction is also read with import_sbml(file, bioscrape_model=M) into a Model at which a rejected import (a draft whose first law uses an unsupported function) was aimed before. Oracle: the document\'s own '
                 'semantics (libsbml AST evaluated with local scoping; dx/dt = sum stoichiometry x law + rate rules) against the imported '
                 'model\'s derivative after its repeated rules, at 6 states, plus species/parameter values and the rule list. states = '
                 'documents; non-trivial = non-zero derivative somewhere.')
